@@ -29,7 +29,7 @@ from vlib import symx, npshim, kharness, purity, compose as C
 from vlib.harness import Unit, pmap, new_unit
 from vlib.kharness import KModel
 from vlib.purity import RecDict, Watch, flatten
-from vlib.symx import Sym, term
+from vlib.symx import Sym, SymBool, term
 
 from sasmodels import core, details, direct_model, weights, kernelpy, kerneldll, generate
 from sasmodels.kerneldll import DllModel
@@ -270,12 +270,41 @@ def real_kernel_request(kern, entry, mesh, cutoff, mode):
     return out if res is None else (out, res())
 
 
-def real_o1_kernel(name, dim, entry, q, mesh, cutoff, mode):
+def _history_mesh(info, mesh, hist, salt):
+    """An earlier request with the dispersity layout *hist* (name -> length)."""
+    out = []
+    for (x, d, w), p in zip(_pollution_mesh(info, mesh, salt), info.parameters.call_parameters):
+        n = dict(hist).get(p.name, 1)
+        if n > 1:
+            c = 0.0 if p.type == "orientation" else x
+            step = 2.5 if p.type == "orientation" else 0.03125 * (abs(x) or 1.0)
+            d = np.array([c + step * (k - (n - 1) / 2.0) for k in range(n)])
+            w = np.array([1.0 + 0.5 * k for k in range(n)])
+        out.append((x, d, w))
+    return out
+
+
+def real_o1_kernel(name, dim, entry, q, mesh, cutoff, mode, hist=()):
     """(reproduced, detail): the request on a fresh kernel object and on two
     kernel objects polluted by different earlier calls, compared bit for bit."""
     model = _real_kernel_model(name)
     qv = [np.asarray(v, dtype=float) for v in q]
     keep, outs, errs = [], [], []
+    if hist:
+        for salt in (None, 0, 1):
+            try:
+                kern = model.make_kernel(qv)
+                keep.append(kern)
+                if salt is not None:
+                    real_kernel_request(kern, "call_kernel", _history_mesh(kern.info, mesh, hist, salt), 0.0, 0)
+                outs.append(bits(real_kernel_request(kern, entry, mesh, cutoff, mode)))
+                errs.append(None)
+            except Exception as e:
+                outs.append(("raise:" + type(e).__name__).encode())
+                errs.append(repr(e))
+        differ = len(set(outs)) > 1
+        return differ, {"fresh_vs_used_identical": not differ, "exceptions": errs,
+                        "history_layout": dict(hist)}
     # fresh kernel; kernels polluted by two different earlier calls; fresh kernels
     # whose uninitialised buffers hold two chosen contents (what np.empty returns
     # is whatever earlier objects left on the heap)
@@ -509,14 +538,19 @@ def _o1_kernel_handler(ctx):
     def factory(rp):
         def mk(i, j, hyps, phi):
             def handler(m):
-                m2 = generic_model(hyps, [z3.Not(phi)], input_prefs(hyps + [phi])) or m
+                # generic values also for inputs that the (possibly purely structural)
+                # disagreement does not mention
+                m2 = generic_model(hyps, [z3.Not(phi)],
+                                   input_prefs(hyps + [phi], objs=[rp[i].result["mesh"],
+                                                                   ctx.get("q") or sym_q(ctx["dim"])])) or m
                 best = None
                 for mm in (m2, m):
                     mesh = concretize(mm, rp[i].result["mesh"])
                     q = concretize(mm, ctx.get("q") or sym_q(ctx["dim"]))
                     cut = float(symx.model_float(mm, z3.Real("in.cutoff")))
                     mode = int(symx.model_float(mm, z3.Int("in.mode"))) if ctx["entry"] == "call_Fq" else 0
-                    rep, detail = real_o1_kernel(ctx["name"], ctx["dim"], ctx["entry"], q, mesh, cut, mode)
+                    rep, detail = real_o1_kernel(ctx["name"], ctx["dim"], ctx["entry"], q, mesh, cut, mode,
+                                                 hist=ctx.get("hist") or ())
                     best = (rep, detail, mesh, q, cut, mode)
                     if rep:
                         break
@@ -529,6 +563,7 @@ def _o1_kernel_handler(ctx):
                                 % (ctx["name"], ctx["dim"], ctx["entry"], _mesh_class(mesh), state[:6]),
                         "inputs": {"replay": "kernel", "model": ctx["name"], "dim": ctx["dim"], "entry": ctx["entry"],
                                    "q": [list(map(float, v)) for v in q], "cutoff": cut, "mode": mode,
+                                   "history_layout": [list(x) for x in (ctx.get("hist") or ())],
                                    "mesh": [[float(v), list(map(float, d)), list(map(float, w))] for v, d, w in mesh]},
                         "detail": detail, "block": None}
             return handler
@@ -724,11 +759,31 @@ def install_composite_prestate(kern, tag="k"):
     return n
 
 
+def leaf_requests(rec):
+    """What the composite kernel asked of its leaves (the leaf results are the
+    named functions of exactly this): structure as strings, data as terms."""
+    out = []
+    for c in rec:
+        d = c.details
+        out.append(["leaf%d" % c.leaf, "dim:" + c.dim, "mode:%s" % (c.mode,), "mag:%s" % bool(c.magnetic),
+                    "layout:%s" % (([int(x) for x in d.pd_par], [int(x) for x in d.pd_length],
+                                    [int(x) for x in d.pd_offset], [int(x) for x in d.pd_stride],
+                                    d.num_eval, d.num_weights, d.num_active, d.theta_par),),
+                    "extra:%s" % (None if d.extra is None else [list(map(int, x)) for x in d.extra],),
+                    list(c.values), c.cutoff])
+    return out
+
+
 def unit_comp(cfg):
+    hist = ()
+    if len(cfg) == 7:
+        hist, cfg = cfg[6], cfg[:6]
     expr, dim, disp, concrete, mag, nonzero = cfg
-    label = "comp/%s/%s/%s%s%s" % (expr, dim, ",".join("%s=%d" % kv for kv in disp) or "mono",
-                                   "".join("/%s=%g" % kv for kv in sorted(concrete.items())),
-                                   "/magnetic" if mag else "")
+    label = "comp%s/%s/%s/%s%s%s%s" % ("-hist" if hist else "", expr, dim,
+                                     ",".join("%s=%d" % kv for kv in disp) or "mono",
+                                     "".join("/%s=%g" % kv for kv in sorted(concrete.items())),
+                                     "/magnetic" if mag else "",
+                                     "/after:" + ",".join("%s=%d" % kv for kv in hist) if hist else "")
     u = Unit(label, timeout_ms=60000)
     install_shims()
     info = core.load_model_info(expr)
@@ -749,6 +804,18 @@ def unit_comp(cfg):
         for i, a in enumerate(qv):
             W.add("make_kernel:q_vectors[%d]" % i, a)
         kern = model.make_kernel(qv)
+        hist_on = False
+        if hist:
+            # history: the same kernel object first serves ANOTHER request (own symbols, a
+            # different dispersity layout) through the real code; whether it did is a
+            # non-input symbol, so fresh and used kernels are compared pairwise by O1
+            if SymBool(z3.Bool("hist.on")):
+                hist_on = True
+                mesh_h, _by = C.sym_mesh(info, dict(hist), concrete, m0_sym, tag="hist.")
+                cd_h, vals_h, mag_h = details.make_kernel_args(kern, mesh_h)
+                kern(cd_h, vals_h, symx.real("hist.cutoff"), mag_h)
+                kern.results()
+                del rec[:]
         npre = install_composite_prestate(kern)
         W.add("make_kernel_args:mesh", mesh)
         cd, vals, is_mag = details.make_kernel_args(kern, mesh)
@@ -757,10 +824,14 @@ def unit_comp(cfg):
 
         def entry():
             out = kern(cd, vals, cutoff, is_mag)
+            if hist:
+                # the leaf results are named functions of the leaf requests: those are outputs too
+                return out, kern.results(), leaf_requests(rec)
             return out, kern.results()
         r = run_entry(entry, W)
         r["mesh"], r["pre_state"] = mesh, npre
-        r["notes"] = {"leaf_calls": len(rec), "magnetic": bool(is_mag)}
+        r["hist_on"] = hist_on
+        r["notes"] = {"leaf_calls": len(rec), "magnetic": bool(is_mag), "after_history_call": hist_on}
         return r
 
     ex = symx.Explorer(timeout_ms=20000, max_paths=600)
@@ -773,8 +844,9 @@ def unit_comp(cfg):
                 "sasmodels.mixture.MixtureKernel.Iq", "sasmodels.mixture._MixtureParts",
                 "sasmodels.mixture._intermediates", "sasmodels.details.make_kernel_args")
     ctx = dict(name=expr, dim=dim, entry="call_kernel", mono=False, paths=paths, family="composite",
-               q=sym_q(dim))
-    judge(u, label, paths, _o1_kernel_handler(ctx), _o2_comp_handler(ctx), sample_ctx={"config": label})
+               q=sym_q(dim), hist=hist)
+    judge(u, label, paths, _o1_kernel_handler(ctx), _o2_comp_handler(ctx), sample_ctx={"config": label},
+          is_ref=((lambda p: not p.result.get("hist_on")) if hist else None))
     return u.r
 
 
@@ -1387,7 +1459,8 @@ def replay(cex):
     kind = i["replay"]
     if kind == "kernel":
         mesh = [(v, np.array(d, dtype=float), np.array(w, dtype=float)) for v, d, w in i["mesh"]]
-        rep, detail = real_o1_kernel(i["model"], i["dim"], i["entry"], i["q"], mesh, i["cutoff"], i["mode"])
+        rep, detail = real_o1_kernel(i["model"], i["dim"], i["entry"], i["q"], mesh, i["cutoff"], i["mode"],
+                                     hist=tuple(tuple(x) for x in i.get("history_layout", ())))
     elif kind == "o2-kernel":
         changed, detail = real_o2_kernel(i["model"], i["dim"], i["entry"], i["q"], i["pars"], 0.0, i["mono"])
         rep, detail = i["watch"] in changed, dict(detail, changed=changed)
@@ -1483,6 +1556,11 @@ def configs(chk):
         ("sphere*cylinder", "2d", (), {}, True, True),
         ("power_law+sphere", "1d", (), {}, False, False),
         ("sphere+sphere@hardsphere", "1d", (("B_radius", 2),), {}, False, True),
+        # the same kernel object after another request with a different dispersity layout
+        ("cylinder@hardsphere", "1d", (("radius", 2),), {er: 1, sf: 0}, False, False, (("length", 2),)),
+        ("cylinder@hardsphere", "2d", (("theta", 2),), {er: 1, sf: 0}, False, False, (("radius", 2),)),
+        ("sphere@hardsphere", "1d", (), {er: 1, sf: 1}, False, False, (("radius", 2),)),
+        ("sphere+cylinder", "1d", (("A_radius", 2),), {}, False, False, (("B_radius", 2),)),
     ]]
     items += [("sasview", c) for c in [
         ("sphere", "1d", "radius", 2, "calculate_Iq", None),
